@@ -377,6 +377,15 @@ func (n *Node) SeqLog() (recs []*types.BlockSequence, last int64) {
 	return recs, last
 }
 
+// TxHeight returns the height recorded in the transaction index for a tx hash (-1 when absent).
+func (n *Node) TxHeight(hash []byte) int64 {
+	r, err := n.Chain.GetStore().GetTx(hash)
+	if err != nil || r == nil {
+		return -1
+	}
+	return r.Height
+}
+
 // SeqOf returns the sequence number recorded for a block hash (-1 when none).
 func (n *Node) SeqOf(hash []byte) int64 {
 	s, err := n.Chain.GetStore().GetSequenceByHash(hash)
